@@ -349,5 +349,34 @@ def Inv (c : HCfg) (t : HashTable) : Prop :=
 
 instance (c : HCfg) (t : HashTable) : Decidable (t.Inv c) := by unfold Inv; infer_instance
 
+/-! ### histories -/
+open Spec.Map (Op Out)
+
+/-- one call of the public API -/
+def step (c : HCfg) (t : HashTable) (op : Op) (m : Mem) : Out × HashTable × Mem :=
+  match op with
+  | .add k v => let r := t.add c k v m; (⟨some r.1, none⟩, r.2.1, r.2.2)
+  | .get k => let r := t.get c k m; (⟨some r.1, r.2.1⟩, t, r.2.2)
+  | .containsKey k => let r := t.containsKey c k m; (⟨none, some (if r.1 then 1 else 0)⟩, t, r.2)
+  | .remove k => let r := t.remove c k m; (⟨some r.1, r.2.1⟩, r.2.2.1, r.2.2.2)
+  | .removeAll => let r := t.removeAll m; (⟨none, none⟩, r.1, r.2)
+
+/-- the failure an insertion reported (allocation refused, maximal capacity), if any: this is the
+only thing in a history that the ideal map cannot know by itself -/
+def failedOf (op : Op) (o : Out) : Option Stat :=
+  match op, o.st with
+  | .add _ _, some .ok => none
+  | .add _ _, s => s
+  | _, _ => none
+
+/-- a history: outputs, failures of the insertions, final table, final ledger -/
+def run (c : HCfg) (t : HashTable) (ops : List Op) (m : Mem) : List Out × List (Option Stat) × HashTable × Mem :=
+  match ops with
+  | [] => ([], [], t, m)
+  | op :: ops =>
+    let s := t.step c op m
+    let rs := run c s.2.1 ops s.2.2
+    (s.1 :: rs.1, failedOf op s.1 :: rs.2.1, rs.2.2.1, rs.2.2.2)
+
 end HashTable
 end CC
